@@ -23,6 +23,8 @@ ASSUMPTIONS = ['inputs are held constant across the cycles of one clk(n) call',
                'permuting the public attribute ClockDriverSimulator.clockables models "every evaluation order of the sequential blocks"']
 BOUNDS = {'quick': 'register chains/rings k<=3, widths<=2, all 512 digraphs of 3 harness sequential blocks in 64 groups, library compositions at small parameters, an FSM reading the UART serializer handshake, the Waveform recorder among the registers it watches (all sequences <= 4, all orders)',
           'thorough': 'chains/rings k<=5, widths<=2, digraphs of 3 sequential blocks, n=4 DAG+1 families, larger library compositions incl. UART transmitter'}
+for k in ('quick', 'thorough'):
+    BOUNDS[k] += '; also a multi-output leaf created after its consumers, clk() after a call aborted by an exception, two systems poked and then clocked in lockstep'
 
 
 class MooreG(Logic):
